@@ -226,6 +226,16 @@ def SameRate (owner : List Nat) (dts : List Rat) (n : Nat) (x : Vec) : Prop :=
 
 /-! ## the hypotheses under which coarse and fine problem agree -/
 
+/-- a top-level grid as `Timegrid.__init__` and `set_wacc` make it: indices `0 … T-1`, one step length, cumulated time
+    and discount factor per step, increasing points, positive step lengths -/
+structure Grid.TopLevel (g : Grid) : Prop where
+  idx : g.idx = List.range g.pts.length
+  dtLen : g.dt.length = g.pts.length
+  DtLen : g.Dt.length = g.pts.length
+  dfLen : g.df.length = g.pts.length
+  pts : g.pts.Pairwise (· < ·)
+  dtPos : ∀ d, d ∈ g.dt → 0 < d
+
 /-- what the builders use of a coarse grid (all of it holds for `Grid.coarsen` on a top-level grid with positive step
     lengths and increasing points, `EAO.C13B.coarsen_wellFormed`): per-step lists of equal length, distinct indices,
     every coarse step as long as its minor steps together, which exist and have positive length -/
